@@ -356,6 +356,17 @@ func checkConcurrent(c Case, prefix string, classes []string) vrep.Result {
 	if shared {
 		classes = append(classes, "shared-redirecting-hop")
 	}
+	siblings := false
+	for i, f := range c.Fetches {
+		for _, g := range c.Fetches[:i] {
+			a, b := c.Nodes[f.Node], c.Nodes[g.Node]
+			siblings = siblings || f.Node != g.Node && a.Host == b.Host && a.Dir == b.Dir && a.Name == b.Name
+		}
+	}
+	if siblings {
+		classes = append(classes, "urls-differing-only-in-the-query")
+		shared = true
+	}
 	may := false
 	for i, f := range c.Fetches {
 		what := fmt.Sprintf("concurrent fetch %d (node %d, budget %d, start +%d ms)", i, f.Node, f.Budget, c.StartMs[i])
@@ -762,12 +773,42 @@ func genConcurrent(t *rapid.T) Case {
 			}
 		}
 	}
+	// siblings: URLs that differ in nothing but the query (the pages of one collection), both slow, so that the
+	// fetch of one is in flight when the other is asked for (seed C03-K)
+	pair := [2]int{-1, -1}
+	if nn >= 2 && rapid.IntRange(0, 2).Draw(t, "siblings") > 0 {
+		i := rapid.IntRange(1, nn-1).Draw(t, "sibling")
+		k := rapid.IntRange(0, i-1).Draw(t, "siblingof")
+		c.Nodes[i].Host, c.Nodes[i].Dir, c.Nodes[i].Name = c.Nodes[k].Host, c.Nodes[k].Dir, c.Nodes[k].Name
+		c.Nodes[i].Query = fmt.Sprintf("page=%d", i)
+		if rapid.Bool().Draw(t, "bothqueries") {
+			c.Nodes[k].Query = fmt.Sprintf("page=%d", k)
+		}
+		c.Nodes[i].LatencyMs, c.Nodes[k].LatencyMs = 30, 30
+		if c.Nodes[k].Redirect && c.Nodes[k].Next == i {
+			c.Nodes[k].LocForm = rapid.SampledFrom([]string{"abs", "query"}).Draw(t, "siblingloc")
+		}
+		for j := range c.Nodes {
+			if c.Nodes[j].Claim > 0 && c.Nodes[c.Nodes[j].Claim-1].Host != c.Nodes[j].Host {
+				c.Nodes[j].Claim = 0
+			}
+		}
+		pair = [2]int{k, i}
+	}
 	nf := rapid.IntRange(2, 6).Draw(t, "nfetches")
 	for i := 0; i < nf; i++ {
 		f := genFetch(t, nn, 20)
 		f.Profile = "as"
+		start := rapid.SampledFrom([]int{0, 0, 2, 5, 10, 20, 40}).Draw(t, "start")
+		if i < 2 && pair[0] >= 0 {
+			f.Node = pair[i]
+			start = i * rapid.SampledFrom([]int{0, 2, 5, 10}).Draw(t, "siblingstart")
+			if rapid.IntRange(0, 3).Draw(t, "siblingvia") > 0 {
+				f.Via = "client"
+			}
+		}
 		c.Fetches = append(c.Fetches, f)
-		c.StartMs = append(c.StartMs, rapid.SampledFrom([]int{0, 0, 2, 5, 10, 20, 40}).Draw(t, "start"))
+		c.StartMs = append(c.StartMs, start)
 	}
 	return c
 }
